@@ -236,6 +236,8 @@ def late_mutation(world):
         try:
             if ev[0] in ("call", "new", "persid"):
                 inst = ev[1]
+                if len(inst.created) < 5:
+                    continue  # arguments were cyclic at call time: no snapshot to compare with
                 if inst.created[3] != tuple(canon_creation(x) for x in inst.args):
                     return True
                 if inst.created[4] != tuple(sorted(((k, canon_creation(x)) for k, x in inst.kwargs.items()), key=repr)):
